@@ -349,6 +349,12 @@ func (p *Program) staticReach(roots ...*ssa.Function) map[*ssa.Function]bool {
 			case *ssa.MakeClosure:
 				push(x.Fn.(*ssa.Function))
 			}
+			// function literals without captured variables are plain *ssa.Function operands
+			for _, op := range in.Operands(nil) {
+				if f, ok := (*op).(*ssa.Function); ok {
+					push(f)
+				}
+			}
 		})
 	}
 	return seen
@@ -383,6 +389,11 @@ func (p *Program) cgReach(roots ...*ssa.Function) map[*ssa.Function]bool {
 			}
 			if c, ok := in.(ssa.CallInstruction); ok {
 				push(staticCallee(c))
+			}
+			for _, op := range in.Operands(nil) {
+				if f, ok := (*op).(*ssa.Function); ok {
+					push(f)
+				}
 			}
 		})
 	}
